@@ -6,7 +6,9 @@ From Keto Require Import Base.Bytes.
 Import ListNotations.
 
 Definition version := option (list bytes).                 (* names of the namespaces of a valid version *)
-Inductive wevent := WChange (f : bytes) (v : version) | WRemove (f : bytes).
+(* WTouch: the MAIN configuration file changed in a way that does not concern the namespaces (Config.watcher ->
+   ShouldReload = false after fix D21 for OPL; the legacy watcher compares its target) *)
+Inductive wevent := WChange (f : bytes) (v : version) | WRemove (f : bytes) | WTouch.
 
 (* per watched file: the last valid version, if any (legacy: an entry may exist without a valid version) *)
 Definition wstate := list (bytes * version).
@@ -31,6 +33,7 @@ Definition legacy_step (s : wstate) (e : wevent) : wstate :=
     | Some _ => s                         (* parse failed: the previous working version stays *)
     | None => wset s f None               (* remembered without a namespace *)
     end
+  | WTouch => s
   end.
 (* oplConfigWatcher.loadFile / handleRemove *)
 Definition opl_step (s : wstate) (e : wevent) : wstate :=
@@ -38,6 +41,7 @@ Definition opl_step (s : wstate) (e : wevent) : wstate :=
   | WRemove f => wdel s f
   | WChange f (Some ns) => wset s f (Some ns)
   | WChange f None => s
+  | WTouch => s
   end.
 
 (* what the API shows: all namespaces of the last valid version of every file *)
@@ -52,4 +56,5 @@ Fixpoint last_good (evs : list wevent) (f : bytes) (acc : version) : version :=
   | WChange g (Some ns) :: r => last_good r f (if bytes_eqb g f then Some ns else acc)
   | WChange g None :: r => last_good r f acc
   | WRemove g :: r => last_good r f (if bytes_eqb g f then None else acc)
+  | WTouch :: r => last_good r f acc
   end.
